@@ -40,6 +40,7 @@ def run(c):
         runs = 300
     for i, cc in enumerate(gens):
         P.replay(c, cc, n, s * 1000 + i, restart=False)
+    P.adversarial(c, P.consts(P.S2x3, MaxKFires=3, MaxOFires=2, MaxLen=100), 400 if c.tier == "quick" else 2000, 60 if c.tier == "quick" else 300, s * 1000 + 77)
     P.self_test_replay(c, gens[0], s * 1000 + 99)
     sh, events = P.traces(c, runs, s)
     P.self_test_trace(c, sh, events)
